@@ -268,3 +268,31 @@ fn u05_9_jpeg_header_size_total() {
         Err(e) => core::mem::forget(e),
     }
 }
+
+// The depth the content parsers read alpha with is the header's declared depth: BlpFlags::alpha_bits() returns the stored
+// alpha_bits field (BLP2 with a palettised / DXT / JPEG body, and every BLP0/BLP1 header), has_mipmaps() the stored flag,
+// alpha_type() the stored type.  (BLP2 Raw3 reports a fixed depth; left unconstrained here.)  Loop-free, full field domains.
+// @harness unit=U16.2 props=C16 kind=complete timeout=300 target="types/header.rs: BlpFlags::alpha_bits, has_mipmaps, alpha_type; BlpHeader::alpha_bits" oracle=blp_alpha
+#[kani::proof]
+#[kani::unwind(4)]
+#[kani::stub(alloc::fmt::format, stub_format)]
+fn u16_2_flags_accessors() {
+    let v: u8 = kani::any();
+    kani::assume(v < 3);
+    let h = any_header(v);
+    match h.flags {
+        BlpFlags::Blp2 { compression, alpha_bits, alpha_type, has_mipmaps } => {
+            if compression != Compression::Raw3 {
+                assert!(h.flags.alpha_bits() == alpha_bits as u32, "BLP2: declared alpha depth is the stored alpha_bits");
+                assert!(h.alpha_bits() == alpha_bits as u32, "BLP2 header accessor agrees");
+            }
+            assert!(h.flags.has_mipmaps() == (has_mipmaps != 0), "BLP2: mipmap flag");
+            assert!(h.flags.alpha_type() == Some(alpha_type), "BLP2: alpha type");
+        }
+        BlpFlags::Old { alpha_bits, has_mipmaps, .. } => {
+            assert!(h.flags.alpha_bits() == alpha_bits, "BLP0/1: declared alpha depth is the stored alpha_bits");
+            assert!(h.flags.has_mipmaps() == (has_mipmaps != 0), "BLP0/1: mipmap flag");
+            assert!(h.flags.alpha_type().is_none(), "BLP0/1: no alpha type");
+        }
+    }
+}
